@@ -427,3 +427,10 @@ prop(
 
 PROPS["C08"]["extra"] = {"script": "wxcli.py", "shards": 4}
 PROPS["C08"]["needs_cli"] = True
+
+# Miri overlay (thorough tier): the same oracles run inside the interpreter, which adds undefined-behaviour detection
+PROPS["C16"]["miri"] = {"package": "mirislice", "shards": NC, "tiers": ["thorough"]}
+PROPS["C19"]["miri"] = {"package": "mirislice", "shards": 1, "tiers": ["thorough"]}
+PROPS["C16"]["tiers"]["thorough"]["watchdog"] = 1500
+PROPS["C16"]["level_note"] += "; thorough tier: the decoder enumeration and a small generated slice also run under Miri (cargo +nightly miri run -p mirislice), any Undefined Behaviour report is a violation"
+PROPS["C19"]["level_note"] += "; thorough tier: signal / exit-status conversions also run under Miri"
